@@ -18,7 +18,8 @@ RULE = ('exhaustive for small bounds: max_bytes 1..8 x backup_count 1..3 x every
         'length 4 (quick) / 5 (thorough), checked after every write (so every prefix is covered); random beyond: '
         'max_bytes <= 4096, backup_count <= 5, up to 200 writes with sizes around max_bytes, pre-existing active '
         'file and pre-existing backups (with gaps), time_format on/off, close/reopen between writes, multi-line and '
-        'non-ASCII payloads, and no-rotation streams. non-trivial = at least one rollover happened or a '
+        'non-ASCII payloads, no-rotation streams, and fault sequences where the operating system refuses to extend '
+        'the file during chosen writes (EFBIG via RLIMIT_FSIZE; a refused chunk may be kept in part, never twice). non-trivial = at least one rollover happened or a '
         'close/reopen or time_format was exercised; distinct = (parameters, write-size sequence)')
 ASSUMPTIONS = ['the size bound is judged on ASCII payloads without time_format (bytes = characters; the statement '
                'does not say which it means, and the prefix is not part of the write the caller made)',
@@ -49,6 +50,7 @@ def plan(tier, seed):
                 out.append({'kind': 'exh', 'mb': mb, 'bc': bc, 'first': first, 'L': L})
     n = 1500 if tier == 'quick' else 40000
     out += [{'kind': 'rnd', 'seed': seed, 'idx': i} for i in range(n)]
+    out += [{'kind': 'fault', 'seed': seed, 'idx': i} for i in range(n // 5)]
     return out
 
 
@@ -103,6 +105,86 @@ def check_state(res, path, hist, mb, bc, judged_size, ctx, written_sizes):
             res.violation('C20/active-file-reached-max_bytes', 'active file has %d bytes, max_bytes=%d, write sizes %s (%s)'
                           % (len(active.encode('utf8')), mb, written_sizes, ctx))
     return len(backs)
+
+
+def suffix_with_faults(cat, chunks):
+    """is `cat` a suffix of the concatenation of `chunks` [(text, faulted)], where a chunk whose write was refused
+    by the operating system may be retained as any prefix of itself (nothing, a part, all of it) but never twice?"""
+    import functools
+
+    @functools.lru_cache(maxsize=None)
+    def m(end, i):
+        # cat[:end] still to be explained by chunks[:i+1], matching backwards
+        if end == 0:
+            return True
+        if i < 0:
+            return False
+        text, faulted = chunks[i]
+        if not faulted:
+            n = len(text)
+            if n >= end:
+                return text.endswith(cat[:end])
+            return cat[end - n:end] == text and m(end - n, i - 1)
+        for k in range(len(text), -1, -1):
+            pre = text[:k]
+            if k >= end:
+                if pre.endswith(cat[:end]):
+                    return True
+                continue
+            if cat[end - k:end] == pre and m(end - k, i - 1):
+                return True
+        return False
+    return m(len(cat), len(chunks) - 1)
+
+
+def run_fault_seq(res, mb, bc, sizes, fault_at, slack, ctx=''):
+    """writes with the operating system refusing to extend the file (EFBIG through RLIMIT_FSIZE, the same errno
+    family as a full disk) during the writes listed in fault_at; the refusal is lifted right after the call"""
+    import resource
+    from circus.stream.file_stream import FileStream
+    d = scratch()
+    path = os.path.join(d, 'out.log')
+    st = FileStream(filename=path, max_bytes=mb, backup_count=bc)
+    soft, hard = resource.getrlimit(resource.RLIMIT_FSIZE)
+    chunks = []
+    refused = 0
+    try:
+        for k, n in enumerate(sizes):
+            data = payload(k, n)
+            if k in fault_at:
+                cur = os.path.getsize(path) if os.path.exists(path) else 0
+                resource.setrlimit(resource.RLIMIT_FSIZE, (cur + slack, hard))
+                try:
+                    st({'data': data, 'pid': 4242})
+                    chunks.append((data, False))
+                except OSError:
+                    chunks.append((data, True))
+                    refused += 1
+                finally:
+                    resource.setrlimit(resource.RLIMIT_FSIZE, (soft, hard))
+                if st._file is None or st._file.closed:
+                    st._file = st._open()        # the refusal hit the rollover itself: what a caller's retry would do
+            else:
+                st({'data': data, 'pid': 4242})
+                chunks.append((data, False))
+            res.obs['writes'] += 1
+            backs, active = files_state(path)
+            if [s for s in backs if not s.isdigit() or not (1 <= int(s) <= max(bc, 0))] or len(backs) > bc:
+                res.violation('C20/too-many-backups', 'backups %s with backup_count=%d (%s)' % (sorted(backs), bc, ctx))
+            cat = ''.join(backs[s] for s in sorted(backs, key=int, reverse=True)) + active
+            if not suffix_with_faults(cat, tuple(chunks)):
+                res.violation('C20/retained-data-not-a-contiguous-tail[after-refused-write]',
+                              'backups(oldest first)+active = %r is not an unduplicated tail of the writes %r (refused ones '
+                              'marked True may be kept in part) (%s k=%d)' % (cat[-100:], chunks[-6:], ctx, k))
+                break
+    finally:
+        resource.setrlimit(resource.RLIMIT_FSIZE, (soft, hard))
+        try:
+            st.close()
+        except Exception:
+            pass
+    res.obs['writes_refused_by_os'] += refused
+    return refused
 
 
 def run_seq(res, mb, bc, sizes, pre_active='', pre_backs=None, time_format=None, reopen_at=(), newline=False,
@@ -191,6 +273,33 @@ def run_case(spec):
     if spec['kind'] == 'concrete':
         run_seq(res, **spec['args'])
         return res
+    if spec['kind'] == 'concrete-fault':
+        a = dict(spec['args'])
+        a['fault_at'] = set(a['fault_at'])
+        run_fault_seq(res, **a)
+        return res
+    if spec['kind'] == 'fault':
+        rnd = rng_for(spec['seed'], 'C20f', spec['idx'])
+        mb = rnd.choice([0, 0, 16, 64, 100, 1000])
+        bc = rnd.randint(1, 3) if mb else 0
+        nw = rnd.randint(3, 30)
+        base = [1, 2, 3, 5, 9, 17, 40] + ([mb // 2, mb - 1] if mb else []) + ([9000] if rnd.random() < 0.1 else [])
+        args = dict(mb=mb, bc=bc, sizes=[max(1, rnd.choice(base)) for _ in range(nw)],
+                    fault_at=sorted(rnd.sample(range(nw), rnd.randint(1, 3))), slack=rnd.choice([0, 0, 1, 2, 7]),
+                    ctx='fault max_bytes=%d backup_count=%d' % (mb, bc))
+        nv = len(res.viol)
+        a = dict(args)
+        a['fault_at'] = set(a['fault_at'])
+        r = run_fault_seq(res, **a)
+        for v in res.viol[nv:]:
+            v['spec'] = {'kind': 'concrete-fault', 'args': args}
+        res.obs['sequences'] += 1
+        res.obs['mode:fault'] += 1
+        if r:
+            res.nontrivial(repr(('fault', mb, bc, args['sizes'], args['fault_at'], args['slack'])))
+        res.sample = {'mode': 'fault', 'max_bytes': mb, 'backup_count': bc, 'write_sizes': args['sizes'][:20],
+                      'refused_writes_at': args['fault_at'], 'writes_refused': r}
+        return res
     rnd = rng_for(spec['seed'], 'C20', spec['idx'])
     mode = rnd.choice(['rot', 'rot', 'rot', 'pre', 'pre', 'time', 'norot', 'reopen', 'uni'])
     mb = rnd.choice([1, 2, 7, 16, 64, 100, 1000, 4096])
@@ -233,6 +342,8 @@ def starved(merged, tier):
         out.append('only %d rollovers observed' % o.get('rollovers', 0))
     if o.get('prefixed_lines_checked', 0) < 1000:
         out.append('only %d prefixed lines checked' % o.get('prefixed_lines_checked', 0))
+    if o.get('writes_refused_by_os', 0) < 100:
+        out.append('only %d writes refused by the operating system' % o.get('writes_refused_by_os', 0))
     if o.get('close_reopen', 0) < 100:
         out.append('only %d close/reopen' % o.get('close_reopen', 0))
     return out
